@@ -10,7 +10,7 @@ RC=0
 for f in "$ROOT"/replays/regress/*.json; do
   BQSIM_REPO="$W" /venv/bin/python "$ROOT/run_check.py" --replay "$f" --quiet >/dev/null; a=$?
   /venv/bin/python "$ROOT/run_check.py" --replay "$f" --quiet >/dev/null; b=$?
-  want=0; case "$(basename "$f")" in F11-*) want=1;; esac    # F11 is an open known finding: still reproduces on /repo
+  want=0; case "$(basename "$f")" in F11-*|F17-*) want=1;; esac    # open known findings: still reproduce on /repo
   echo "$(basename "$f"): original tree rc=$a (want 1 or 3)  /repo rc=$b (want $want)"
   { [ $a -eq 1 ] || [ $a -eq 3 ]; } && [ $b -eq $want ] || RC=1
 done
